@@ -1,6 +1,6 @@
 """C16 — Concurrency.  Partial by nature: the LOGIC of the ordered collections is decided by proof
-(props/C16.v over model/OrderedMap.v, atomicity premise = locks_ok on the regenerated lock facts,
-model tied to the real code by the correspondence below); the RUNTIME (memory model, races inside
+(props/C16.v over model/OrderedMap.v and model/RulesBuilder.v, atomicity premise = locks_ok / rules_locks_ok on the
+regenerated lock facts, models tied to the real code by the correspondences below); the RUNTIME (memory model, races inside
 values and the schema library, independence of whole parses) is only EXPLORED with the race
 detector and labelled as such in the evidence."""
 import itertools
@@ -196,10 +196,264 @@ def ref_set(init, ops):
 
 
 # ---------------------------------------------------------------------------------------
+# catalog.RulesBuilder / catalog.Rules (hand-written; model/RulesBuilder.v)
+
+RULE_KEYS = [b"a", b"b", b"c", b"", b"dd"]
+
+
+def renc(ops):
+    if not ops:
+        return "-"
+    return ",".join(":".join([op[0]] + [C.hx(a) for a in op[1:]]) for op in ops)
+
+
+def rinit(init):
+    if init is None:
+        return "-"
+    return "n:" + "/".join(C.hx(k) + "=" + C.hx(v) for k, v in init)
+
+
+def ref_rules(init, ops):
+    """independent statement of the pair: a list of (Key, value) and a dict key -> position.
+    Set appends and re-points the key (nothing is overwritten in place), Append appends and indexes nothing,
+    NewRules indexes every rule under its Key, the last one winning."""
+    data = list(init or [])
+    index = {k: i for i, (k, _) in enumerate(data)}
+    out = []
+    for op in ops:
+        t = op[0]
+        if t == "S":
+            index[op[1]] = len(data)
+            data.append((op[1], op[3]))
+            out.append(".")
+        elif t == "A":
+            data.append((op[1], op[2]))
+            out.append(".")
+        elif t == "G":
+            if op[1] in index:
+                k, v = data[index[op[1]]]
+                out.append("some:" + C.hx(k) + "=" + C.hx(v))
+            else:
+                out.append("none")
+        elif t == "H":
+            out.append("true" if op[1] in index else "false")
+        elif t == "L":
+            out.append(str(len(data)))
+        elif t in ("E", "M"):
+            out.append(pairs(data))
+        else:
+            raise ValueError(op)
+    return ";".join(out)
+
+
+def rules_statement(init, ops, observed):
+    """the property's own words on the implementation's output alone: no update is lost (Get = the last Set of
+    the key), every call left exactly one rule (listings = the calls in order), and - when no key is Set twice
+    and no appended rule borrows a Set key - every key once in the listing.  Returns (why, set_twice_seen)."""
+    obs = observed.split(";") if observed else []
+    if len(obs) != len(ops):
+        return "number of results", False
+    stored = list(init or [])
+    last = {k: v for k, v in stored}
+    set_count = {}
+    twice = False
+    for op, o in zip(ops, obs):
+        t = op[0]
+        if t == "S":
+            stored.append((op[1], op[3]))
+            last[op[1]] = op[3]
+            set_count[op[1]] = set_count.get(op[1], 0) + 1
+        elif t == "A":
+            stored.append((op[1], op[2]))
+        elif t == "G":
+            exp = "some:" + C.hx(op[1]) + "=" + C.hx(last[op[1]]) if op[1] in last else "none"
+            if o != exp:
+                return "lost update: Get differs from the last Set of the key", twice
+        elif t == "H":
+            if o != ("true" if op[1] in last else "false"):
+                return "Has differs from 'the key was Set'", twice
+        elif t == "L":
+            if o != str(len(stored)):
+                return "Len differs from the number of rules stored", twice
+        elif t in ("E", "M"):
+            if o != pairs(stored):
+                return "a stored rule is lost, doubled or out of call order", twice
+            if init is None and any(c >= 2 for c in set_count.values()):
+                twice = True   # the finding: the key is listed once per Set
+    return None, twice
+
+
+def rules_exhaustive(maxlen):
+    alph = [("S", b"a", b"j"), ("S", b"b", b""), ("A", b"a"), ("A", b""), ("S", b"", b"a")]
+    tail = [("E",), ("M",), ("L",), ("G", b"a"), ("G", b"b"), ("G", b""), ("H", b"a"), ("H", b"")]
+    for n in range(0, maxlen + 1):
+        for seq in itertools.product(alph, repeat=n):
+            ops = []
+            for i, o in enumerate(seq):
+                v = b"v%d" % i
+                ops.append((o[0], o[1], o[2], v) if o[0] == "S" else (o[0], o[1], v))
+            yield None, ops + tail
+
+
+def rules_random(rng, maxlen):
+    n = rng.randint(1, maxlen)
+    ops = []
+    for i in range(n):
+        k = rng.choice(RULE_KEYS)
+        r = rng.random()
+        if r < 0.34:
+            ops.append(("S", k, rng.choice(RULE_KEYS), b"s%d" % i))
+        elif r < 0.50:
+            ops.append(("A", k, b"a%d" % i))
+        elif r < 0.66:
+            ops.append(("G", k))
+        elif r < 0.76:
+            ops.append(("H", k))
+        elif r < 0.84:
+            ops.append(("L",))
+        elif r < 0.92:
+            ops.append(("E",))
+        else:
+            ops.append(("M",))
+    return None, ops + [("E",), ("L",)] + [("G", k) for k in RULE_KEYS] + [("H", k) for k in RULE_KEYS]
+
+
+def rules_new_random(rng):
+    d = [(rng.choice(RULE_KEYS), b"n%d" % i) for i in range(rng.randint(0, 7))]
+    ops = []
+    for _ in range(rng.randint(0, 6)):
+        k = rng.choice(RULE_KEYS)
+        ops.append(rng.choice([("G", k), ("H", k), ("L",), ("E",), ("M",)]))
+    return d, ops + [("E",), ("M",), ("L",)] + [("G", k) for k in RULE_KEYS] + [("H", k) for k in RULE_KEYS]
+
+
+def stage_rules_model(res, tier, seed, rp):
+    """sequential correspondence model/RulesBuilder.v vs the real catalog.RulesBuilder / catalog.Rules, plus the
+    executable statement on the implementation's output.  Returns (corr_bad, spec_bad)."""
+    rng = random.Random(seed * 7919 + 16)
+    scripts = []
+    if rp and rp.get("rules_script"):
+        init, ops = rp["rules_script"]
+        scripts = [(None if init is None else [(C.unhx(k), C.unhx(v)) for k, v in init],
+                    [tuple([o[0]] + [C.unhx(x) for x in o[1:]]) for o in ops])]
+    elif not rp:
+        scripts = list(rules_exhaustive(4 if tier == "quick" else 5))
+        scripts += [rules_random(rng, 30) for _ in range(4000 if tier == "quick" else 40000)]
+        scripts += [rules_new_random(rng) for _ in range(600 if tier == "quick" else 6000)]
+    if not scripts:
+        return [], []
+    lines = ["rules %s %s" % (rinit(init), renc(ops)) for init, ops in scripts]
+    t0 = time.time()
+    impl = C.run_sharded("harness", "fn", lines)
+    model = C.run_sharded("modelrun", None, lines)
+    res.count(len(lines))
+    res.coverage["traces_validated_against_impl"] += len(lines)
+    dist = {}
+    corr_bad, spec_bad = [], []
+    twice_seen = 0
+    unreachable_seen = 0
+    for (init, ops), i, m in zip(scripts, impl, model):
+        for o in ops:
+            name = {"S": "Set", "A": "Append", "G": "Get", "H": "Has", "L": "Len", "E": "Each", "M": "MarshalJSON"}[o[0]]
+            dist[name] = dist.get(name, 0) + 1
+        if i != m:
+            corr_bad.append(((init, ops), i, m))
+        expected = ref_rules(init, ops)
+        if i != expected:
+            why, twice = "result differs from the list+dict statement of the rules builder", False
+        else:
+            why, twice = rules_statement(init, ops, i)
+        if "ALIAS-DIFFER" in i:
+            why = "Rules() returned a copy: a *Rules obtained before a write does not see it"
+        if why:
+            spec_bad.append(((init, ops), i, expected, why))
+        twice_seen += 1 if twice else 0
+        sets = {o[1] for o in ops if o[0] == "S"}
+        if any(o[0] == "A" and o[1] not in sets and o[1] != b"" for o in ops) and init is None:
+            unreachable_seen += 1
+        if sum(1 for o in ops if o[0] in "SA") >= 2 and re.search(r"\[[^\]]*\|", i):
+            res.nontrivial(i)
+    mid = len(scripts) // 2
+    res.sample({"rules": lines[mid], "impl": impl[mid], "model": model[mid]})
+    res.notes["rules_model"] = {
+        "scripts": len(scripts),
+        "exhaustive_len": 4 if tier == "quick" else 5,
+        "constructor_scripts": sum(1 for init, _ in scripts if init is not None),
+        "op_distribution": dist,
+        "key_alphabet": [k.decode() for k in RULE_KEYS],
+        "disagreements_model_vs_impl": len(corr_bad),
+        "wall_s": round(time.time() - t0, 1),
+    }
+    res.notes["rules_set_twice_note"] = (
+        "RulesBuilder.Set does not overwrite: a second Set of a key appends a second rule carrying that key and "
+        "re-points the index (theorem rules_set_twice_keeps_both; confirmed on the implementation in %d scripts: the "
+        "key is listed twice by Each/MarshalJSON, Get returns the later rule).  'Every key exactly once in the "
+        "order' holds for the builder when no key is Set twice (theorem rules_first_insertion_order); the library's "
+        "two call sites (catalog/schema.go:53, catalog/schema_jsight.go:125) Set the distinct keys of an ordered map "
+        "of the schema library." % twice_seen)
+    res.notes["rules_readers_note"] = (
+        "Rules() and the methods of *Rules take no lock (regenerated fact, theorem rules_readers_take_no_lock); a "
+        "Get that runs between the two statements of Set indexes out of range (theorem "
+        "unlocked_get_during_set_panics).  Not exercised at run time on purpose (it is a data race by construction) "
+        "and not reachable through the exported API: newRulesBuilder is unexported and the builder never leaves "
+        "the function that created it; the concurrent stage reads only after the writers are joined.")
+    return corr_bad, spec_bad
+
+
+def compare_rules_finals(rules_stage, cmd):
+    """final state of the REAL builder after a concurrent run with disjoint per-goroutine key sets against the
+    model's interleaving-independent content (theorems rules_interleaving_content_independent,
+    rules_any_interleaving, rules_disjoint_keys_once): the model is run on ONE interleaving (the goroutines one
+    after the other) and on every goroutine alone."""
+    bad = []
+    summary = {}
+    finals = rules_stage.pop("finals", {}) if isinstance(rules_stage, dict) else {}
+    for kind, fin in sorted(finals.items()):
+        progs = fin["programs"]
+        keys = fin["keys"]
+        canonical = ",".join(p for p in progs if p)
+        ncalls = sum(len(p.split(",")) for p in progs if p)
+        lines = ["rules - %s,E,L,%s" % (canonical, ",".join("G:" + k for k in keys))]
+        lines += ["rules - %s,E" % p for p in progs]
+        out = C.run_lines("modelrun", None, lines)
+        obs = out[0].split(";")
+        m_each, m_len, m_gets = obs[ncalls], obs[ncalls + 1], obs[ncalls + 2:]
+        ent = lambda t: t[1:-1].split("|") if t != "[]" else []
+        i_each = ent(fin["each"])
+        why = None
+        if sorted(i_each) != sorted(ent(m_each)):
+            why = "the stored rules are not a permutation of the model's"
+        elif str(fin["len"]) != m_len:
+            why = "Len() = %s, the model says %s" % (fin["len"], m_len)
+        elif list(fin["gets"]) != m_gets:
+            d = [k for k, a, b in zip(keys, fin["gets"], m_gets) if a != b][:3]
+            why = "Get differs from the model's interleaving-independent value for the keys %s" % d
+        else:
+            for g, p in enumerate(progs):
+                mine = [e for e in i_each if C.unhx(e.split("=")[1]).startswith(b"g%d." % g)]
+                alone = ent(out[1 + g].split(";")[-1])
+                if mine != alone:
+                    why = "the rules stored by goroutine %d are not its program in order" % g
+                    break
+        if why is None and kind == "distinct":
+            ks = [e.split("=")[0] for e in i_each if C.unhx(e.split("=")[0]).startswith(b"k")]
+            if len(ks) != len(set(ks)):
+                why = "a key Set once appears twice in the order"
+        summary[kind] = {"goroutines": len(progs), "calls": ncalls, "keys_compared": len(keys),
+                         "agrees_with_model": why is None}
+        if why:
+            bad.append(("collections: RulesBuilder after a concurrent run (%s keys) differs from the model's "
+                        "interleaving-independent content: %s" % (kind, why),
+                        {"stress": cmd, "stage": "collections/rules", "kind": kind, "programs": progs,
+                         "impl_each": fin["each"], "impl_gets": fin["gets"], "model": out[0][-2000:]}, True))
+    return bad, summary
+
+
+# ---------------------------------------------------------------------------------------
 
 
 def run(res, tier, seed, replay):
-    pr = C.prepare("C16", res, need_gens=("collections",))
+    pr = C.prepare("C16", res, need_gens=("collections", "rules"))
     res.coverage["rule"] = ("operation sequences on the generated ordered collections: every sequence of "
                             "Set/SetToTop/Update/Get/Has over 3 keys and Len/MarshalJSON up to the length bound "
                             "(exhaustive) plus random sequences (5 keys, also Map, failing Map, Each, EachReverse) up to "
@@ -207,8 +461,14 @@ def run(res, tier, seed, replay):
     res.notes["decided_by"] = {
         "proof": ["ordered collections: invariant, no lost update, each key once in order/MarshalJSON, "
                   "first-insertion order, Set keeps position (props/C16.v, all operation sequences)",
-                  "atomicity premise locks_ok / ops_ok on the lock facts regenerated from *_gen.go"],
-        "correspondence": "model vs real catalog.Servers/Tags/directive.Directives and catalog.StringSet, sequential",
+                  "atomicity premise locks_ok / ops_ok on the lock facts regenerated from *_gen.go",
+                  "rules builder (catalog/rules_builder.go, rules.go): index sound in every reachable state, Get = last "
+                  "Set, data = one rule per call in call order, every key once when no key is Set twice, content "
+                  "independent of the interleaving for disjoint per-goroutine key sets (all schedules / interleavings); "
+                  "atomicity premise rules_locks_ok / rules_ops_ok on gen/RulesFacts.v regenerated from the two files"],
+        "correspondence": "model vs real catalog.Servers/Tags/directive.Directives, catalog.StringSet and "
+                          "catalog.RulesBuilder/Rules, sequential; final state of a concurrently written RulesBuilder vs "
+                          "the model's interleaving-independent content",
         "runtime_exploration_only": ["absence of data races", "independence of concurrent parses",
                                      "concurrent serialisation of one catalog",
                                      "the unsafe variant UserSchemas (excluded by name)"],
@@ -223,14 +483,14 @@ def run(res, tier, seed, replay):
     seqs = []
     if rp and rp.get("ops"):
         seqs = [[tuple([o[0]] + [C.unhx(x) for x in o[1:]]) for o in rp["ops"]]]
-    elif not (rp and rp.get("stress")):
+    elif not (rp and (rp.get("stress") or rp.get("rules_script"))):
         seqs = list(exhaustive([b"a", b"b", b"c"], 4 if tier == "quick" else 5))
         nrand = 3000 if tier == "quick" else 30000
         seqs += [random_seq(rng, 40) for _ in range(nrand)]
     lines = ["omap " + enc(s) for s in seqs]
     t0 = time.time()
-    impl = C.run_sharded("harness", "fn", lines)
-    model = C.run_sharded("modelrun", None, lines)
+    impl = C.run_sharded("harness", "fn", lines) if lines else []
+    model = C.run_sharded("modelrun", None, lines) if lines else []
     res.count(len(lines))
     res.coverage["traces_validated_against_impl"] = len(lines)
     corr_bad, spec_bad = [], []
@@ -279,6 +539,10 @@ def run(res, tier, seed, replay):
             "NewStringSet(vv...) keeps duplicates of vv in the order (theorem new_set_keeps_duplicates; confirmed on the "
             "implementation in %d scripts); the constructor is used by tests only, Add never produces a duplicate "
             "(theorem set_add_each_once)" % dup_seen)
+    # the hand-written rules builder
+    rcorr, rspec = stage_rules_model(res, tier, seed, rp)
+    rules_corr_bad = rcorr
+    rules_spec_bad = rspec
     res.notes["input_distribution"] = {"map_sequences": len(seqs), "set_scripts": len(sset),
                                        "exhaustive_len": 4 if tier == "quick" else 5,
                                        "correspondence_s": round(time.time() - t0, 1)}
@@ -286,10 +550,10 @@ def run(res, tier, seed, replay):
 
     # runtime exploration
     explore_bad = []
-    if not (rp and rp.get("ops")):
+    if not (rp and (rp.get("ops") or rp.get("rules_script"))):
         explore_bad = runtime_exploration(res, tier, seed)
 
-    judge(res, pr, corr_bad, spec_bad, explore_bad)
+    judge(res, pr, corr_bad, spec_bad, explore_bad, rules_corr_bad, rules_spec_bad)
 
 
 # ---------------------------------------------------------------------------------------
@@ -399,6 +663,14 @@ def runtime_exploration(res, tier, seed):
             continue
         stages = rep.get("stages", {})
         files = stages.get("projects", {}).pop("files", []) or stages.get("cold", {}).pop("files", [])
+        if "rules" in stages.get("collections", {}):
+            try:
+                rbad, rsum = compare_rules_finals(stages["collections"]["rules"], cmd)
+            except Exception as e:
+                rbad, rsum = [("collections: comparison of the RulesBuilder final state with the model failed: %r" % (e,),
+                               {"stress": cmd, "stage": "collections/rules"}, False)], {}
+            bad.extend(rbad)
+            stages["collections"]["rules"]["model_comparison"] = rsum
         run_note["stages"] = stages
         run_note["fixture_files"] = len(files)
         res.count(sum(int(v.get("calls", 0)) for v in stages.get("collections", {}).values()))
@@ -443,17 +715,24 @@ def diagnose_locks():
     """which (collection, method) breaks locks_ok / ops_ok, computed by Coq on the regenerated facts"""
     src = os.path.join(C.WORK, "c16_diag.v")
     with open(src, "w") as f:
-        f.write("From Coq Require Import String List.\nFrom JV.gen Require Import Collections.\n"
-                "From JV.model Require Import LockDiscipline.\nOpen Scope string_scope.\nOpen Scope list_scope.\n"
-                "Eval vm_compute in (locks_failures collections).\nEval vm_compute in (ops_failures collections).\n")
-    ok, _ = C.coq_make(["model/LockDiscipline.vo"])
+        f.write("From Coq Require Import String List.\nFrom JV.gen Require Import Collections RulesFacts.\n"
+                "From JV.model Require Import LockDiscipline RulesLocks.\nOpen Scope string_scope.\nOpen Scope list_scope.\n"
+                "Eval vm_compute in (locks_failures collections).\nEval vm_compute in (ops_failures collections).\n"
+                "Eval vm_compute in rules_failures.\n")
+    ok, _ = C.coq_make(["model/LockDiscipline.vo", "model/RulesLocks.vo"])
     p = C.sh(["timeout", "300", "coqc"] + C.coq_args() + [src], cwd=C.COQ)
     outs = re.findall(r"=\s*(.*?)\n\s*:\s*list", p.stdout, re.S)
-    names = ["locks_failures", "ops_failures"]
+    names = ["locks_failures", "ops_failures", "rules_failures"]
     return {n: " ".join(o.split()) for n, o in zip(names, outs)} if p.returncode == 0 else {"error": p.stderr[-400:]}
 
 
-def judge(res, pr, corr_bad, spec_bad, explore_bad):
+def judge(res, pr, corr_bad, spec_bad, explore_bad, rules_corr_bad=(), rules_spec_bad=()):
+    for (init, ops), i, expected, why in list(rules_spec_bad)[:5]:
+        res.violation("rules builder: %s; init=%s ops=%s impl=%s expected=%s" % (why, rinit(init), renc(ops), i, expected),
+                      {"rules_script": [None if init is None else [[C.hx(k), C.hx(v)] for k, v in init],
+                                        [[o[0]] + [C.hx(a) for a in o[1:]] for o in ops]],
+                       "script": "rules %s %s" % (rinit(init), renc(ops)), "impl": i, "expected": expected,
+                       "theorem": "rules_no_lost_update / rules_data_is_history / rules_first_insertion_order"})
     for s, i, expected, why in spec_bad[:5]:
         res.violation("ordered collection: %s; ops=%s impl=%s expected=%s" % (why, enc(s), i, expected),
                       {"ops": [[o[0]] + [C.hx(a) for a in o[1:]] for o in s], "script": enc(s), "impl": i,
@@ -468,7 +747,7 @@ def judge(res, pr, corr_bad, spec_bad, explore_bad):
             uniq.append(b)
     for what, rp, found in uniq[:8]:
         res.violation("runtime exploration: " + what, rp, found_input=found)
-    if spec_bad:
+    if spec_bad or rules_spec_bad:
         return
     if not pr.proof_ok:
         diag = {}
@@ -484,3 +763,12 @@ def judge(res, pr, corr_bad, spec_bad, explore_bad):
         res.violation("model and implementation disagree on %s: impl=%s model=%s (%d disagreements); the implementation "
                       "satisfied the executable statement on every sequence tried" % (desc, i, m, len(corr_bad)),
                       {"correspondence": "omap/oset", "script": desc, "impl": i, "model": m}, found_input=False)
+    if rules_corr_bad:
+        (init, ops), i, m = rules_corr_bad[0]
+        res.violation("correspondence: model/RulesBuilder.v and catalog.RulesBuilder/Rules disagree on `rules %s %s`: impl=%s "
+                      "model=%s (%d disagreements); the implementation satisfied the executable statement on every "
+                      "script tried" % (rinit(init), renc(ops), i, m, len(rules_corr_bad)),
+                      {"correspondence": "rules",
+                       "rules_script": [None if init is None else [[C.hx(k), C.hx(v)] for k, v in init],
+                                        [[o[0]] + [C.hx(a) for a in o[1:]] for o in ops]],
+                       "script": "rules %s %s" % (rinit(init), renc(ops)), "impl": i, "model": m}, found_input=False)
